@@ -51,3 +51,13 @@ Fixpoint py_for (l : list bytes) (body : bytes -> option result) (k : result) : 
   | [] => k
   | x :: rest => match body x with Some r => r | None => py_for rest body k end
   end.
+
+(* what ClientTLSLayer.__init__ resets a client attribute to in the TLS-over-TLS case
+   (used by the generated Gen/ClientTlsReset.v) *)
+Inductive reset_val := ResetNone | ResetEmptyList.
+
+Fixpoint reset_lookup (name : bytes) (l : list (bytes * reset_val)) : option reset_val :=
+  match l with
+  | [] => None
+  | (n, v) :: rest => if bytes_eqb n name then Some v else reset_lookup name rest
+  end.
